@@ -124,7 +124,9 @@ def judge_common(ctx, prop, progres, stress_runs, races):
             # a stuck end state is judged on its history (below): a call that never
             # returned must be one the queue's state does not permit to proceed
             if r['history']:
-                items.append((key, prog['cap'], r['history']))
+                # a schedule the real code did not follow was abandoned by the harness: its
+                # history is a real prefix, but the calls left pending say nothing
+                items.append((key, prog['cap'], r['history'], r['status'] != 'drift'))
         cov['client_programs'][name] = {'distinct_states': pr['mc']['stats'].get('distinct'), 'edges': len(pr['mc']['edges']),
                                  'model_violations': sorted(pr['mc']['violated']), 'schedules': len(pr['scheds']),
                                  'edges_not_covered': pr['uncovered'], 'replay': st}
@@ -149,12 +151,13 @@ def judge_common(ctx, prop, progres, stress_runs, races):
                 ctx.violation('values %s were added but never delivered' % run['lost'][:10],
                               {'engine': 'queue', 'kind': 'lost', 'observed': {k: run[k] for k in run if k != 'history'},
                                'signature': {'engine': 'queue', 'kind': 'lost', 'has_clear': False}})
-        items.append((key, run['cap'], run['history']))
+        items.append((key, run['cap'], run['history'], True))
     rejected = []
     if prop == 'C05':
         # histories that did not run to completion: are the calls left behind rightly blocked?
-        stuck_items = [it for it in items if not qe.complete(it[2])]
-        for key, off in qe.validate_histories(ctx, stuck_items, 's'):
+        stuck_items = [it for it in items if not qe.complete(it[2]) and it[3]]
+        for key, off in (qe.validate_histories(ctx, [it for it in stuck_items if it[0][0] == 'sched'], 's') +
+                         qe.validate_histories(ctx, [it for it in stuck_items if it[0][0] != 'sched'], 't')):
             prog, sched, r = meta[key]
             hist = r['history']
             if off < len(hist):
@@ -170,7 +173,8 @@ def judge_common(ctx, prop, progres, stress_runs, races):
         # every history, also those that did not run to completion: a history that is
         # wrong before its end (a panic, a wrong result) is a matter of C04; one that is
         # only rejected at its end (calls left waiting) is a matter of C05
-        rejected = qe.validate_histories(ctx, items, 'h')
+        rejected = (qe.validate_histories(ctx, [it for it in items if it[0][0] == 'sched'], 'h') +
+                    qe.validate_histories(ctx, [it for it in items if it[0][0] != 'sched'], 'g'))
         for key, off in rejected:
             prog, sched, r = meta[key]
             hist = r['history']
@@ -218,7 +222,7 @@ def check(ctx, prop):
 
 def finish_cov(cov, items, extra_rule=''):
     sample = None
-    for key, cap, events in items:
+    for key, cap, events in [it[:3] for it in items]:
         if events:
             sample = {'cap': cap, 'history': [[e['e'], e['p'], e.get('op', ''), e.get('v', 0), e.get('r')] for e in events[:14]]}
             break
